@@ -8,6 +8,22 @@
 // The reference model is a plain Go map of accounts; a snapshot is a deep copy of it.
 // The oracle evaluated is chosen by --property (c.Prop): one property's violation never fails
 // the other's check.
+//
+// Differences from DESIGN.md §3.2 (the design is a plan):
+//   - the alphabet has 24 operations (the design's families spelled out per account/key/value)
+//     instead of 14, so the full alphabet is searched to depth 4 (quick) / 6 (thorough) and a
+//     14-operation core sub-alphabet (per property) to depth 6 / 8;
+//   - the oracle's read-back is made non-perturbing (the data-trie cache it fills is put
+//     back), and "load(S)" is an explicit operation, so that histories in which an account
+//     was not read before being removed/re-created are explored too;
+//   - the journal is part of the state key only above the lowest live snapshot.
+//
+// C06 is VIOLATED on the unchanged tree (not anticipated by the design): when an account is
+// removed and re-created with storage inside one journal epoch, saveDataTrie replaces the
+// cached data trie of the address and no journal entry puts the old one back, so after
+// RevertToSnapshot the restored account is served the wrong (new, emptied) data trie:
+// store(S,k1,x), snapshot, store(S,k1,-), remove(S), store(S,k1,x), revert -> S.k1 reads empty
+// although state root and account root hash are restored. Fix: /verif/fixes/C06.diff.
 package main
 
 import (
@@ -849,7 +865,7 @@ func main() {
 		c.Level = "model_checking"
 		menu := buildMenu()
 		core := subMenu(menu, coreMenus[c.Prop])
-		depth, coreDepth := c.Pick(4, 6), c.Pick(6, 7)
+		depth, coreDepth := c.Pick(4, 6), c.Pick(6, 8)
 		if *depthFlag > 0 {
 			depth = *depthFlag
 		}
